@@ -1,6 +1,542 @@
-//! C13 — not built yet.
-use vcommon::Args;
+//! C13 — valid messages with unknown header fields, flags or types are tolerated.
+//!
+//! Space: reference-built (refmsg) valid messages that differ from a normal message only by
+//!   * one header field with an unknown code (10..=255) carrying each of 6 variant payload types,
+//!     placed first or last in the field array,
+//!   * unknown flag bits (each of 0x08..0x80 alone, and all together), with and without the known
+//!     flags,
+//!   * an unknown message type code (5..=255),
+//!   over base messages (call with body, signal, reply) and both byte orders. Field code 0 and
+//!   type 0 are INVALID in the message format (not "unknown"), they are observed but not judged.
+//!
+//! Every such message X is
+//!   (a) parsed with `Message::from_bytes`,
+//!   (b) put between normal messages N1, N2 in the inbound byte stream of a real p2p connection
+//!       (scripted socket, default schedule) that has a `MessageStream`; afterwards N3 is pushed.
+//!
+//! Oracle (what the statement says):
+//!   unknown-field-ignored  from_bytes(X) is Ok and reads like the base message; the stream
+//!                          delivers N1, X, N2, N3
+//!   unknown-flag-ignored   the same for flag bits (known bits retained)
+//!   unknown-type-skipped   the stream delivers N1, N2, N3, X is not delivered and no error item
+//!                          appears (nothing is demanded from from_bytes for an unknown type)
 
-pub fn main(_args: &Args) -> i32 {
-    vcommon::machinery_failure("C13: check not built yet")
+use std::sync::{Arc, Mutex};
+
+use futures_lite::StreamExt;
+use serde_json::json;
+use vcommon::{catch, hash64, hex, par_for, unhex, Args, Report, Tier, Violation};
+use zbus::{connection::Builder, zvariant::Endian, Message, MessageStream};
+
+use crate::{
+    refmsg::{self as rm, o, s, var, MsgSpec, Ty, RV},
+    world::{parse_message, Link, SockCfg, World, GUID},
+};
+
+// ---------------------------------------------------------------------------------------------
+// cases
+// ---------------------------------------------------------------------------------------------
+
+#[derive(Clone, Debug, PartialEq, Eq, Hash)]
+pub enum Unknown {
+    Field { code: u8, payload: usize, first: bool },
+    Flags { bits: u8 },
+    Type { code: u8 },
+    /// control: the base message itself (nothing unknown); must be delivered
+    Nothing,
+}
+
+#[derive(Clone, Debug, PartialEq, Eq, Hash)]
+pub struct Case {
+    pub base: usize,
+    pub be: bool,
+    pub unknown: Unknown,
+}
+
+pub fn payloads() -> Vec<RV> {
+    vec![
+        RV::Y(1),
+        RV::U(7),
+        s("x"),
+        RV::Array(Ty::Y, vec![RV::Y(1), RV::Y(2)]),
+        RV::Struct(vec![s("a"), RV::U(1)]),
+        var(RV::T(1)),
+    ]
+}
+
+const X_SERIAL: u32 = 777;
+
+pub fn base_spec(base: usize, be: bool) -> MsgSpec {
+    let mut m = match base {
+        0 => {
+            let mut m = MsgSpec::new(rm::METHOD_CALL, X_SERIAL)
+                .field(rm::PATH, o("/a/b"))
+                .field(rm::INTERFACE, s("x.y.I"))
+                .field(rm::MEMBER, s("Ping"))
+                .field(rm::SENDER, s(":1.7"));
+            m.body = vec![s("hello"), RV::U(5)];
+            m.flags = 0x2;
+            m
+        }
+        1 => MsgSpec::new(rm::SIGNAL, X_SERIAL)
+            .field(rm::PATH, o("/"))
+            .field(rm::INTERFACE, s("x.y.I"))
+            .field(rm::MEMBER, s("Sig")),
+        _ => {
+            let mut m = MsgSpec::new(rm::METHOD_RETURN, X_SERIAL)
+                .field(rm::REPLY_SERIAL, RV::U(5))
+                .field(rm::DESTINATION, s(":1.5"));
+            m.body = vec![RV::Y(1), RV::T(2)];
+            m
+        }
+    };
+    m.be = be;
+    m
+}
+
+pub const N_BASES: usize = 3;
+
+pub fn x_spec(c: &Case) -> MsgSpec {
+    let mut m = base_spec(c.base, c.be);
+    match &c.unknown {
+        Unknown::Field { code, payload, first } => {
+            let p = payloads()[*payload].clone();
+            if *first {
+                m.fields.insert(0, (*code, p));
+            } else {
+                m.fields.push((*code, p));
+            }
+        }
+        Unknown::Flags { bits } => m.flags |= *bits,
+        Unknown::Type { code } => m.mtype = *code,
+        Unknown::Nothing => {}
+    }
+    m
+}
+
+pub fn enumerate(tier: Tier) -> Vec<Case> {
+    let t = tier == Tier::Thorough;
+    let mut out = vec![];
+    let bases: Vec<usize> = (0..N_BASES).collect();
+    for &base in &bases {
+        for be in [false, true] {
+            out.push(Case { base, be, unknown: Unknown::Nothing });
+            for code in std::iter::once(0u8).chain(10..=255) {
+                for payload in 0..payloads().len() {
+                    for first in [false, true] {
+                        if first && !t && base != 0 {
+                            continue;
+                        }
+                        out.push(Case { base, be, unknown: Unknown::Field { code, payload, first } });
+                    }
+                }
+            }
+            for unk in [0x08u8, 0x10, 0x20, 0x40, 0x80, 0xf8] {
+                for known in [0u8, 0x7] {
+                    // the base's own flags are or-ed in by x_spec
+                    out.push(Case { base, be, unknown: Unknown::Flags { bits: unk | known } });
+                }
+            }
+            for code in std::iter::once(0u8).chain(5..=255) {
+                out.push(Case { base, be, unknown: Unknown::Type { code } });
+            }
+        }
+    }
+    out
+}
+
+fn normal(serial: u32, member: &str) -> Vec<u8> {
+    let mut m = MsgSpec::new(rm::SIGNAL, serial)
+        .field(rm::PATH, o("/n"))
+        .field(rm::INTERFACE, s("x.y.N"))
+        .field(rm::MEMBER, s(member));
+    m.body = vec![RV::U(serial)];
+    m.encode().0
+}
+
+// ---------------------------------------------------------------------------------------------
+// observations
+// ---------------------------------------------------------------------------------------------
+
+/// What a message reads like through the public accessors (None = from_bytes failed).
+#[derive(Debug, Clone, PartialEq)]
+pub struct Reading {
+    pub mtype: u8,
+    pub known_flags: u8,
+    pub serial: u32,
+    pub fields: Vec<Option<String>>,
+    pub reply_serial: Option<u32>,
+    pub signature: String,
+    pub body: String,
+}
+
+fn read_msg(m: &Message) -> Reading {
+    let h = m.header();
+    let body = m.body();
+    let body_s = if matches!(body.signature(), zbus::zvariant::Signature::Unit) {
+        String::new()
+    } else {
+        match body.deserialize::<zbus::zvariant::Structure<'_>>() {
+            Ok(st) => format!("{:?}", st.fields()),
+            Err(e) => format!("body error: {e}"),
+        }
+    };
+    Reading {
+        mtype: h.message_type() as u8,
+        known_flags: h.primary().flags().bits() & 0x7,
+        serial: h.primary().serial_num().get(),
+        fields: vec![
+            h.path().map(|x| x.to_string()),
+            h.interface().map(|x| x.to_string()),
+            h.member().map(|x| x.to_string()),
+            h.error_name().map(|x| x.to_string()),
+            h.destination().map(|x| x.to_string()),
+            h.sender().map(|x| x.to_string()),
+        ],
+        reply_serial: h.reply_serial().map(|x| x.get()),
+        signature: h.signature().to_string(),
+        body: body_s,
+    }
+}
+
+fn normalize_err(e: &str) -> String {
+    // digits -> N, runs collapsed
+    let mut out = String::new();
+    let mut last_n = false;
+    for c in e.chars() {
+        if c.is_ascii_digit() {
+            if !last_n {
+                out.push('N');
+            }
+            last_n = true;
+        } else {
+            out.push(c);
+            last_n = false;
+        }
+    }
+    out
+}
+
+/// Name the reason `from_bytes` gave, as a root-cause class.
+fn parse_error_class(e: &str) -> String {
+    let n = normalize_err(e);
+    let list = |k: usize| format!("expected one of: {}", vec!["N"; k].join(", "));
+    if n.contains("invalid value: N, ") && n.contains(&list(9)) && !n.contains(&list(10)) {
+        // serde_repr refusing a u8 that is not one of the 9 FieldCode discriminants
+        "field-code-not-in-enum".into()
+    } else if n.contains("invalid value: N, ") && n.contains(&list(4)) && !n.contains(&list(5)) {
+        // serde_repr refusing a u8 that is not one of the 4 message Type discriminants
+        "type-not-in-enum".into()
+    } else if n.contains("expected valid bit representation") {
+        // enumflags2 refusing bits outside the Flags enum
+        "flag-bits-not-in-enum".into()
+    } else {
+        format!("other: {n}")
+    }
+}
+
+#[derive(Debug, Clone, PartialEq)]
+pub enum Item {
+    Msg { serial: u32, mtype: u8 },
+    Err(String),
+    End,
+}
+
+#[derive(Debug, Clone)]
+pub struct StreamObs {
+    pub items: Vec<Item>,
+    pub reader_gone: bool,
+    pub send_ok: bool,
+    pub horizon: bool,
+}
+
+/// N1, X, N2 in one inbound chunk of a real connection with a MessageStream; then N3.
+pub fn run_stream(x: &[u8]) -> StreamObs {
+    let mut w = World::new();
+    let link = Link::new();
+    let sock = link.end_a(SockCfg::default());
+    let conn = w
+        .complete("build", async move {
+            Builder::authenticated_socket(sock, GUID)
+                .unwrap()
+                .p2p()
+                .internal_executor(false)
+                .build()
+                .await
+        })
+        .expect("connection build did not complete")
+        .expect("connection build");
+    let mut stream = MessageStream::from(&conn);
+    let items: Arc<Mutex<Vec<Item>>> = Arc::new(Mutex::new(vec![]));
+    let items2 = items.clone();
+    let _consumer = w.spawn("consumer", async move {
+        loop {
+            match stream.next().await {
+                Some(Ok(m)) => {
+                    let it = Item::Msg {
+                        serial: m.primary_header().serial_num().get(),
+                        mtype: m.message_type() as u8,
+                    };
+                    items2.lock().unwrap().push(it);
+                }
+                Some(Err(e)) => items2.lock().unwrap().push(Item::Err(format!("{e:?}"))),
+                None => {
+                    items2.lock().unwrap().push(Item::End);
+                    break;
+                }
+            }
+        }
+    });
+    w.settle();
+    let mut inbound = normal(101, "N1");
+    inbound.extend_from_slice(x);
+    inbound.extend_from_slice(&normal(102, "N2"));
+    link.b2a.push(&inbound, vec![]);
+    w.settle();
+    link.b2a.push(&normal(103, "N3"), vec![]);
+    w.settle();
+    // the sending side (observed, not judged)
+    let out = Message::signal("/o", "x.y.O", "Out").unwrap().build(&()).unwrap();
+    let conn2 = conn.clone();
+    let send_ok = matches!(w.complete("send", async move { conn2.send(&out).await }), Some(Ok(())));
+    let reader_gone = link.b2a.with(|c| c.reader_dropped);
+    let obs = StreamObs {
+        items: items.lock().unwrap().clone(),
+        reader_gone,
+        send_ok,
+        horizon: w.hit_horizon,
+    };
+    drop(conn);
+    obs
+}
+
+// ---------------------------------------------------------------------------------------------
+// oracle
+// ---------------------------------------------------------------------------------------------
+
+pub struct Verdict {
+    pub outcome: String,
+    pub violations: Vec<Violation>,
+    pub x: Vec<u8>,
+}
+
+fn unknown_kind(u: &Unknown) -> &'static str {
+    match u {
+        Unknown::Field { .. } => "field",
+        Unknown::Flags { .. } => "flag",
+        Unknown::Type { .. } => "type",
+        Unknown::Nothing => "control",
+    }
+}
+
+fn describe(c: &Case) -> String {
+    let b = ["call", "signal", "return"][c.base];
+    let e = if c.be { "BE" } else { "LE" };
+    match &c.unknown {
+        Unknown::Field { code, payload, first } => format!(
+            "{b} {e} + header field code {code} = variant {} ({})",
+            payloads()[*payload].ty().sig(),
+            if *first { "first" } else { "last" }
+        ),
+        Unknown::Flags { bits } => format!("{b} {e} + flag bits {bits:#04x}"),
+        Unknown::Type { code } => format!("{b} {e} with message type {code}"),
+        Unknown::Nothing => format!("{b} {e} unchanged (control)"),
+    }
+}
+
+pub fn check_case(c: &Case) -> Verdict {
+    let spec = x_spec(c);
+    let (x, _) = spec.encode();
+    let (base_bytes, _) = base_spec(c.base, c.be).encode();
+    let kind = unknown_kind(&c.unknown);
+    // INVALID (0) codes are not "unknown": observed only
+    let judged = !matches!(c.unknown, Unknown::Field { code: 0, .. } | Unknown::Type { code: 0 });
+    let replay = json!({"x": hex(&x), "kind": kind, "what": describe(c), "judged": judged});
+    let mut vs = vec![];
+
+    // the harness's own messages must be valid under the reference parser
+    if let Err(e) = rm::parse_header(&x) {
+        vcommon::machinery_failure(&format!("C13: reference-built message is not valid: {e}"));
+    }
+
+    // ---- (a) from_bytes
+    let parsed = catch(|| parse_message(&x).map(|m| read_msg(&m)).map_err(|e| format!("{e:?}")));
+    let base_reading = catch(|| parse_message(&base_bytes).map(|m| read_msg(&m)).map_err(|e| format!("{e:?}")));
+    let base_reading = match base_reading {
+        Ok(Ok(r)) => r,
+        other => vcommon::machinery_failure(&format!("C13: the base message does not parse: {other:?}")),
+    };
+    let parse_class = match &parsed {
+        Ok(Ok(_)) => "none".to_string(),
+        Ok(Err(e)) => parse_error_class(e),
+        Err(p) => format!("panic: {}", normalize_err(p)),
+    };
+    let clause = match kind {
+        "field" => "unknown-field-ignored",
+        "flag" => "unknown-flag-ignored",
+        "type" => "unknown-type-skipped",
+        _ => "control-message-delivered",
+    };
+    let mk = |level: &str, explained: bool, detail: String| {
+        Violation::new(clause, format!("{}: {detail}", describe(c)), replay.clone())
+            .feat("unknown", kind)
+            .feat("level", level)
+            .feat("parse_error", &parse_class)
+            .feat("explained_by_parse_error", explained)
+    };
+    let mut parse_outcome = "parse-ok";
+    match (&parsed, kind) {
+        (Ok(Ok(r)), "field") | (Ok(Ok(r)), "flag") | (Ok(Ok(r)), "control") => {
+            let mut want = base_reading.clone();
+            if let Unknown::Flags { bits } = c.unknown {
+                want.known_flags = (base_spec(c.base, c.be).flags | bits) & 0x7;
+            }
+            if *r != want && judged {
+                vs.push(mk("parse", false, format!("from_bytes reads {r:?}, the message without the unknown part reads {want:?}")));
+            }
+        }
+        (Ok(Ok(_)), _) => {}
+        (Ok(Err(_)), "type") => parse_outcome = "parse-rejected(type: not judged)",
+        (Ok(Err(e)), _) => {
+            parse_outcome = "parse-rejected";
+            if judged {
+                vs.push(mk("parse", true, format!("Message::from_bytes fails: {e}")));
+            }
+        }
+        (Err(p), _) => {
+            parse_outcome = "parse-panicked";
+            if judged {
+                vs.push(mk("parse", false, format!("Message::from_bytes panicked: {p}")));
+            }
+        }
+    }
+
+    // ---- (b) in a stream
+    let so = match catch(|| run_stream(&x)) {
+        Ok(s) => s,
+        Err(p) => {
+            if judged {
+                vs.push(mk("stream", false, format!("the connection scenario panicked: {p} at {}", vcommon::last_panic_location())));
+            }
+            return Verdict { outcome: format!("{kind}: {parse_outcome}, stream-panicked"), violations: vs, x };
+        }
+    };
+    if so.horizon {
+        vcommon::machinery_failure("C13: a stream scenario did not settle");
+    }
+    let delivered = |sn: u32| so.items.iter().any(|i| matches!(i, Item::Msg { serial, .. } if *serial == sn));
+    let n_errors = so.items.iter().filter(|i| matches!(i, Item::Err(_))).count();
+    let ended = so.items.contains(&Item::End);
+    let want_x = kind != "type";
+    let good = delivered(101)
+        && delivered(102)
+        && delivered(103)
+        && delivered(X_SERIAL) == want_x
+        && n_errors == 0
+        && !ended;
+    let stream_outcome = if good {
+        "stream-continues"
+    } else if ended {
+        "stream-ended"
+    } else {
+        "stream-anomalous"
+    };
+    if !good && judged {
+        // Is this exactly what rejecting X at parse time predicts? (N1 delivered, then that very
+        // error as an item, then the stream ends because the reader task stops.)
+        let predicted = parse_class != "none"
+            && so.items.len() == 3
+            && so.items[0] == (Item::Msg { serial: 101, mtype: rm::SIGNAL })
+            && matches!(&so.items[1], Item::Err(e) if parse_error_class(e) == parse_class)
+            && so.items[2] == Item::End;
+        vs.push(mk(
+            "stream",
+            predicted,
+            format!(
+                "stream of a connection fed N1(101), X({X_SERIAL}), N2(102), then N3(103) yielded {:?}; reader task gone={} send still works={}",
+                so.items, so.reader_gone, so.send_ok
+            ),
+        ));
+    }
+    let outcome = if judged {
+        format!("{kind}: {parse_outcome}, {stream_outcome}")
+    } else {
+        format!("invalid-code-0 {kind} (not judged): {parse_outcome}, {stream_outcome}")
+    };
+    Verdict { outcome, violations: vs, x }
+}
+
+// ---------------------------------------------------------------------------------------------
+// main / replay
+// ---------------------------------------------------------------------------------------------
+
+fn replay(path: &str) -> i32 {
+    let v = vcommon::load_replay(path);
+    let r = &v["replay"];
+    let x = unhex(r["x"].as_str().unwrap_or(""));
+    println!("what: {}", r["what"]);
+    println!("X = {}", hex(&x));
+    match rm::parse_header(&x) {
+        Ok(ph) => {
+            println!(
+                "reference parse: valid; type={} flags={:#04x} serial={} body_len={}",
+                ph.mtype, ph.flags, ph.serial, ph.body_len
+            );
+            for (c, v) in &ph.fields {
+                println!("  field {} ({}) = {}:{}", c, rm::field_name(*c), v.ty().sig(), v.show());
+            }
+        }
+        Err(e) => println!("reference parse: INVALID ({e})"),
+    }
+    let endian = if x.first() == Some(&b'B') { Endian::Big } else { Endian::Little };
+    let _ = endian;
+    match catch(|| parse_message(&x).map(|m| read_msg(&m)).map_err(|e| format!("{e:?}"))) {
+        Ok(Ok(r)) => println!("Message::from_bytes: Ok, reads {r:?}"),
+        Ok(Err(e)) => println!("Message::from_bytes: Err({e}) [class {}]", parse_error_class(&e)),
+        Err(p) => println!("Message::from_bytes: PANIC {p}"),
+    }
+    match catch(|| run_stream(&x)) {
+        Ok(so) => println!(
+            "stream fed N1(101), X({X_SERIAL}), N2(102), then N3(103): items={:?} reader_gone={} send_ok={}",
+            so.items, so.reader_gone, so.send_ok
+        ),
+        Err(p) => println!("stream scenario: PANIC {p}"),
+    }
+    let violated = v["clause"].as_str().is_some();
+    if violated {
+        1
+    } else {
+        0
+    }
+}
+
+pub fn main(args: &Args) -> i32 {
+    if let Some(p) = &args.replay {
+        return replay(p);
+    }
+    let report = Report::new("C13", args.tier, args.seed, "exploration");
+    let cases = enumerate(args.tier);
+    report.set("cases_enumerated", json!(cases.len()));
+    let n = cases.len();
+    let sample_every = (n / 10).max(1);
+    par_for(n, 16, |i| {
+        let c = &cases[i];
+        let v = check_case(c);
+        report.eval(1);
+        report.outcome(&v.outcome);
+        report.nontrivial(hash64(&v.x));
+        if i % sample_every == 0 {
+            report.sample(json!({"what": describe(c), "x": hex(&v.x), "outcome": v.outcome}));
+        }
+        for x in v.violations {
+            report.violation(x);
+        }
+    });
+    report.assume("the reference message layout in refmsg.rs is correct (every X is valid under the reference parser; thorough audits do not apply here)");
+    report.assume("field code 0 and message type 0 are INVALID per the message format, not unknown; they are enumerated and observed but not judged");
+    report.assume("the stream scenario runs on the default schedule (task interleavings are not part of this property)");
+    report.finish(
+        "every unknown field code x 6 payload types x positions, unknown flag-bit sets, every unknown type code, over 3 base messages x 2 byte orders; each parsed with from_bytes and fed to a real connection between normal messages. Non-trivial = distinct message bytes",
+        true,
+    )
 }
